@@ -264,3 +264,99 @@ func isTestFn(p *core.Prog, f *core.Fn) bool {
 	}
 	return false
 }
+
+// closedHandleIsForgotten: the interface's ethernet handle is the token for "a run is in progress" (_stop closes the
+// done channel and the handle iff the field is set).  Whoever closes the handle must clear the field before the
+// function returns — otherwise the next link-down event finds a stale handle, closes the previous run's done channel a
+// second time (panic) and closes the handle twice.  Rule: in every netIfa method, each path from a Close() on the handle
+// field to a return passes an assignment of nil to that field (or a call of a method that makes it so on all its exits).
+func closedHandleIsForgotten(c *core.Ctx) {
+	const rule = "closed-handle-is-forgotten"
+	p := c.P
+	hF := p.Field(isisSrv, "netIfa", "ethernetInterface")
+	if hF == nil {
+		c.Check(false, rule, "netIfa.ethernetInterface", 0, "field not found")
+		return
+	}
+	clears := func(f *core.Fn) func(ast.Node) bool {
+		return func(n ast.Node) bool {
+			as, ok := n.(*ast.AssignStmt)
+			if !ok || len(as.Lhs) != len(as.Rhs) {
+				return false
+			}
+			for i, l := range as.Lhs {
+				if core.FieldOf(f.Pkg, l) == hF && core.IsNilIdent(f.Pkg, as.Rhs[i]) {
+					return true
+				}
+			}
+			return false
+		}
+	}
+	// methods that clear the field on every exit
+	clearing := map[*types.Func]bool{}
+	for _, f := range p.MethodsOf(isisSrv, "netIfa") {
+		if f.Decl.Body == nil {
+			continue
+		}
+		rets, implicit := core.ExitsWithout(p.CFG(f), clears(f))
+		if len(rets) == 0 && !implicit {
+			clearing[f.Obj] = true
+		}
+	}
+	n := 0
+	for _, f := range p.MethodsOf(isisSrv, "netIfa") {
+		if f.Decl.Body == nil {
+			continue
+		}
+		isClose := func(nd ast.Node) bool {
+			return core.NodeHas(nd, func(x ast.Node) bool {
+				call, ok := x.(*ast.CallExpr)
+				if !ok {
+					return false
+				}
+				se, ok := call.Fun.(*ast.SelectorExpr)
+				return ok && se.Sel.Name == "Close" && core.FieldOf(f.Pkg, se.X) == hF
+			})
+		}
+		has := false
+		ast.Inspect(f.Decl.Body, func(nd ast.Node) bool {
+			if st, ok := nd.(ast.Stmt); ok && isClose(st) {
+				has = true
+			}
+			return true
+		})
+		if !has {
+			continue
+		}
+		n++
+		c.Analysed(f)
+		cl := clears(f)
+		gate := func(nd ast.Node) bool {
+			if cl(nd) {
+				return true
+			}
+			return core.NodeHas(nd, func(x ast.Node) bool {
+				call, ok := x.(*ast.CallExpr)
+				return ok && clearing[core.Callee(f.Pkg, call)]
+			})
+		}
+		isRet := func(nd ast.Node) bool { _, ok := nd.(*ast.ReturnStmt); return ok }
+		hits := core.PathAvoidingFrom(p.CFG(f), isClose, gate, isRet)
+		// falling off the end of the function behind the Close without clearing
+		endsClean := true
+		if len(hits) == 0 {
+			rets, implicit := core.ExitsWithout(p.CFG(f), gate)
+			_ = rets
+			if implicit {
+				endsClean = false
+			}
+		}
+		pos := f.Decl.Pos()
+		if len(hits) > 0 {
+			pos = hits[0].Pos()
+		}
+		c.Check(len(hits) == 0 && endsClean, rule, f.Name()+" clears the handle field after closing the handle", pos,
+			"a path closes the ethernet handle and returns with the closed handle still in netIfa.ethernetInterface: the next link-down takes it for a run in progress, closes the previous run's done channel again (panic: close of closed channel) and closes the handle a second time")
+	}
+	c.Check(n >= 1, rule, "methods closing the handle found", 0, "no netIfa method closes the ethernet handle")
+}
